@@ -1030,6 +1030,7 @@ def case(ctx, i, rng):
         cell, gdim = rng.choice(CELLS)
         cplx = rng.random() < 0.35
         family = rng.choice(["plain", "plain", "plain", "split", "parts", "parts"])
+    build_state = rng.getstate()
     try:
         sp = fixed_spec(i) if i < NFIXED else build(rng, family, cell, gdim, cplx)
         family = sp.family
@@ -1070,6 +1071,29 @@ def case(ctx, i, rng):
             results["action_a"] = check_action(ctx, sp, a, wss, fields, rng)
         results["adjoint"] = check_adjoint(ctx, sp, a, wss, fields, rng)
         results["energy_norm"] = check_energy_norm(ctx, sp, a, wss, fields, rng)
+    if i >= NFIXED and rng.random() < 0.3:
+        # a structural twin: the same recipe built again from fresh objects (other mesh, coefficients, constants; same
+        # signature) and taken apart in the same process after the first one - its parts must be ITS parts
+        import random as _random
+
+        r2 = _random.Random()
+        r2.setstate(build_state)
+        try:
+            sp2 = build(r2, family, cell, gdim, cplx)
+            F2 = sp2.F
+            if F2 is not None and not is_zero_number(F2) and not F2.empty() and F2.signature() == F.signature() and F2 != F:
+                ctx.count("twin_forms")
+                wss2 = [WorldSet(rng, cell, gdim, cplx) for _ in range(NW)]
+                res2 = check_parts(ctx, sp2, F2, wss2, Fields(), tag="twin-after-original")
+                results.update({"twin:" + k: v for k, v in res2.items()})
+                a2 = sp2.a_form
+                if a2 is not None and not a2.empty():
+                    results["twin:energy_norm"] = check_energy_norm(ctx, sp2, a2, wss2, Fields(), rng)
+        except oracle.Unsupported:
+            ctx.count("world_unsupported")
+        except Exception as ex:
+            ctx.count("twin_build_rejected")
+            ctx.covered("build_rejected_with", "twin: " + type(ex).__name__ + ": " + str(ex)[:60])
     verdicts = [v for v in results.values() if v is not None]
     violated = ctx.counters.get("violations_raw", 0) > nviol
     if violated:
